@@ -3,7 +3,7 @@
 # usage: tools/seeded_all.sh [name-glob]   -> table on stdout and /verif/seeded/RESULTS.md
 # LANES (default 4) seeds run at once, each check with JOBS (default 4) workers.
 cd /verif
-OUT=/verif/seeded/RESULTS.md
+OUT=/verif/seeded/RESULTS.md; [ -n "$1" ] && OUT=/tmp/seeded-partial.md
 R=$(mktemp -d /tmp/seeded-all-XXXXXX)
 one() {
   d=$1; R=$2
